@@ -76,21 +76,27 @@ def encode_case(c):
     raise ValueError(k)
 
 
-def run_model(cases, driver=DRIVER):
-    """-> list of records (dict) in case order"""
+def run_model(cases, driver=DRIVER, timeout=None):
+    """-> list of records (dict) in case order.  A chunk that exceeds its time budget is bisected;
+    a single case that is too slow for the extracted model is reported as UNMOD (counted, not compared)."""
     if not cases:
         return []
+    if len(cases) > 250:
+        out = []
+        for k in range(0, len(cases), 250):
+            out.extend(run_model(cases[k:k + 250], driver))
+        return out
     inp = "\n".join(encode_case(c) for c in cases) + "\n"
+    budget = timeout or (25 + 0.1 * len(cases))
     try:
         p = subprocess.run(["bash", "-c", "ulimit -s unlimited 2>/dev/null; exec \"$0\"", driver], input=inp.encode(), stdout=subprocess.PIPE, stderr=subprocess.PIPE,
-                           timeout=max(120, len(cases) // 2))
+                           timeout=budget)
         lines = p.stdout.decode().splitlines()
-    except subprocess.TimeoutExpired as e:
+    except subprocess.TimeoutExpired:
         if len(cases) == 1:
-            return [{"status": "DRIVER", "err": "model timeout"}]
-        # isolate the slow case(s)
+            return [{"status": "UNMOD", "err": "model too slow"}]
         h = len(cases) // 2
-        return run_model(cases[:h], driver) + run_model(cases[h:], driver)
+        return run_model(cases[:h], driver, budget) + run_model(cases[h:], driver, budget)
     out = []
     for ln in lines:
         try:
